@@ -176,10 +176,37 @@ func (tx *Tx) SMoveByOneBucket(bucket string, key1, key2, item []byte) (bool, er
 	}
 
 	if set, ok := tx.db.SetIdx[bucket]; ok {
-		return set.SMove(string(key1), string(key2), item)
+		if !set.SHasKey(string(key1)) {
+			return false, ErrNotFoundKeyInBucket(bucket, key1)
+		}
+
+		if !set.SHasKey(string(key2)) {
+			return false, ErrNotFoundKeyInBucket(bucket, key2)
+		}
+
+		return tx.sMove(bucket, key1, bucket, key2, item)
 	}
 
 	return false, ErrBucket
+}
+
+// sMove records the move in the write set of the transaction, as a removal from the source and
+// an addition to the destination, so that it takes effect at Commit, is undone by Rollback and
+// is as durable as any other write. It moves nothing if item is not a member of the source.
+func (tx *Tx) sMove(bucket1 string, key1 []byte, bucket2 string, key2, item []byte) (bool, error) {
+	if !tx.db.SetIdx[bucket1].SIsMember(string(key1), item) {
+		return false, nil
+	}
+
+	if err := tx.sPut(bucket1, key1, DataDeleteFlag, item); err != nil {
+		return false, err
+	}
+
+	if err := tx.sPut(bucket2, key2, DataSetFlag, item); err != nil {
+		return false, err
+	}
+
+	return true, nil
 }
 
 // SMoveByTwoBuckets moves member from the set at source to the set at destination in two buckets.
@@ -209,13 +236,7 @@ func (tx *Tx) SMoveByTwoBuckets(bucket1 string, key1 []byte, bucket2 string, key
 		return false, ErrNotFoundKeyInBucket(bucket2, key2)
 	}
 
-	if _, ok := set2.M[string(key2)][string(item)]; !ok {
-		set2.SAdd(string(key2), item)
-	}
-
-	set1.SRem(string(key1), item)
-
-	return true, nil
+	return tx.sMove(bucket1, key1, bucket2, key2, item)
 }
 
 // SUnionByOneBucket the members of the set resulting from the union of all the given sets in one bucket.
